@@ -150,8 +150,9 @@ def judge(ctx, case):
             ctx.ev()
             if got != exp:
                 ctx.viol("private key accessor %s differs from the reference" % name, {"got": str(got)[:120], "exp": str(exp)[:120]})
+        ctx.ev()
         if o["from_private_key"] != pub.hex():
-            ctx.note("PublicKey::from_private_key form differs from to_public_key (informational)")
+            ctx.viol("private key accessor PublicKey::from_private_key differs from the reference", {"got": o["from_private_key"][:140], "exp": pub.hex()[:140]})
         for req, what in (({"op": "privkey", "wif": wif}, "from_wif"), ({"op": "privkey", "hex_str": case["x"], "compressed": comp}, "from_hex")):
             r2 = ctx.call(req)
             ctx.ev()
